@@ -190,7 +190,7 @@ let ghost mut done: Set<String> = Set::empty();
             u.take_fn(hc, "query_pairs",
                 extra_attrs="#[verifier::loop_isolation(false)]",
                 contract="""
-        ensures pairs_view(r@) == url_pairs(*uri),  // @C02.query_pairs.parses_every_parameter
+        ensures pairs_view(r@) == url_pairs(*uri),  // @C02+C04.query_pairs.parses_every_parameter
 """,
                 pre_body="proof { reveal_strlit(\"\"); assert(\"\"@.len() == 0); assert(\"\"@ =~= Seq::<char>::empty()); }\nlet ghost q: Seq<char> = match uri_query(*uri) { Some(x) => x, None => Seq::<char>::empty() };",
                 desugar_for={0: "vx_it"},
